@@ -1,10 +1,10 @@
-\* design-level run of HCache.tla, quick tier: case-sensitive, ids {1,2}, no metadata values
+\* design-level run of HCache.tla with metadata: one name (paths a, a/a), ids {1,2}, metadata values {0,1}
 CONSTANTS
-  Names = {"a", "b"}
+  Names = {"a"}
   Ids = {1, 2}
   Depth = 2
   CaseFold = FALSE
-  Metas = {0}
+  Metas = {0, 1}
 SPECIFICATION HSpec
 INVARIANT TypeOK
 INVARIANT Coherent
